@@ -12,13 +12,14 @@ variable {α : Type}
 /-! ### Laziness -/
 
 /-- Building and composing is silent: for EVERY composition tree and from every state, a script of operations
-    that only construct/compose (`b`, ObserveOn `o*`, SubscribeOn `u*`) leaves the world exactly as it was
+    that only construct/compose (`b`, ObserveOn `o*`, SubscribeOn `u*`, a further FlatMap `d*`) leaves the world exactly as it was
     and reports no event.  (In the model the constructors are values — `World` is not an argument of
     `just/new/flatMap/observeOn/subscribeOn`; that the Go constructors behave like that is carried by the
     correspondence, which prints the events seen after every such operation, and by `C11_skeleton`: the effect
     closure is invoked only from `doEffect`, and `doEffect`/`fn` are called only inside closures.) -/
 theorem C11_lazy (ops : List String)
-    (h : ∀ op ∈ ops, parseOp op = some .build ∨ (∃ h, parseOp op = some (.ob h)) ∨ (∃ h, parseOp op = some (.so h))) :
+    (h : ∀ op ∈ ops, parseOp op = some .build ∨ (∃ h, parseOp op = some (.ob h)) ∨ (∃ h, parseOp op = some (.so h)) ∨
+      (∃ c, parseOp op = some (.derive c))) :
     ∀ (m : M Nat) (w : World),
       (foldOps stepOp (m, w) ops).1.2 = w ∧ runOps stepOp (m, w) ops = ops.map (fun _ => "-") := by
   induction ops with
@@ -28,7 +29,7 @@ theorem C11_lazy (ops : List String)
     have hop := h op (by simp)
     have ih' := ih (fun o ho => h o (by simp [ho]))
     rw [foldOps_cons, runOps_cons]
-    rcases hop with hb | ⟨hh, hb⟩ | ⟨hh, hb⟩ <;>
+    rcases hop with hb | ⟨hh, hb⟩ | ⟨hh, hb⟩ | ⟨hh, hb⟩ <;>
       (simp only [stepOp, hb, implOp, List.map_cons]; exact ⟨(ih' _ w).1, by rw [(ih' _ w).2]⟩)
 
 /-- the initial world of every case is empty whatever the tree: construction of `den t 0` contributes nothing -/
@@ -37,7 +38,8 @@ theorem C11_lazy_initial (line : String) (t : Tree) (hp : parseHead (splitCase l
   simp [handle, hp]
 
 example : runOps stepOp (den (.FL 1 (.N 1) (.N 2)) 0, w0) ["b", "o1", "u2"] = ["-", "-", "-"] := by decide
-example : ∀ op ∈ ["b", "o1", "u2"], parseOp op = some .build ∨ (∃ h, parseOp op = some (.ob h)) ∨ (∃ h, parseOp op = some (.so h)) := by
+example : ∀ op ∈ ["b", "o1", "u2"], parseOp op = some .build ∨ (∃ h, parseOp op = some (.ob h)) ∨ (∃ h, parseOp op = some (.so h)) ∨
+    (∃ c, parseOp op = some (.derive c)) := by
   simp [parseOp]
 
 /-! ### Exactly once, in composition order -/
@@ -192,6 +194,20 @@ theorem C11_model_refines_spec (line : String) : handle line = specCase line := 
       | build => exact ⟨⟨he, hob, hsub, hn⟩, rfl⟩
       | ob h => exact ⟨⟨he, rfl, hsub, hn⟩, rfl⟩
       | so h => exact ⟨⟨he, hob, rfl, hn⟩, rfl⟩
+      | race h =>
+        have hsubs1 : ∀ w', subscribe (observeOn m (some .h3)) ⟨some logNext⟩ .main w' =
+            (w'.emits (run st.t 0 w'.log.length).2 .h3).emit (.next (run st.t 0 w'.log.length).1) (st.sub.getD .h3) := by
+          intro w'
+          have e1 : subscribe (observeOn m (some .h3)) ⟨some logNext⟩ .main w'
+              = doSubscribe m ⟨some logNext⟩ (some .h3) m.subOn .main w' := rfl
+          rw [e1, C11_subscribe_once, hev, hsub]; rfl
+        simp only [implOp, specOp', hsubs1, drop_emits_emit, showEvs_kinds_next]
+        rw [← hn]
+        exact ⟨⟨he, rfl, rfl, by simp [Nat.add_assoc]⟩, rfl⟩
+      | derive c =>
+        refine ⟨⟨?_, rfl, rfl, hn⟩, rfl⟩
+        show (flatMap m (kont c (fun x => den (.V 1) x))).effect = (den (.FL c st.t (.V 1)) 0).effect
+        simp only [den, flatMap, doEffect, he]
       | eval =>
         simp only [implOp, specOp', hev, drop_emits, showEvs_kinds]
         rw [← hn]
